@@ -102,6 +102,10 @@ class Pool:
         modes = {"weight": sp.RepeatMode.WEIGHT, "repeat": sp.RepeatMode.REPEAT, "equal": sp.RepeatMode.EQUAL}
         aligns = {"equal": sp.AlignmentMode.EQUAL_PREAMBLE, "post": sp.AlignmentMode.POST_PREAMBLE,
                   "parallel": sp.AlignmentMode.PARALLEL_START}
+        if tree.get("as_str"):
+            # the documented string spellings ('weight' / 'repeat' / 'equal', 'equal preamble' / ...)
+            modes = {"weight": "weight", "repeat": "repeat", "equal": "equal"}
+            aligns = {"equal": "equal preamble", "post": "post preamble", "parallel": "parallel start"}
 
         def cons(lst):
             out = []
